@@ -316,7 +316,7 @@ class XPath1Parser(Parser[ta.XPathTokenType]):
                     raise self.next_token.wrong_syntax()
 
         next_symbol = self.next_token.symbol
-        if token.symbol != 'empty-sequence' and next_symbol in ('?', '*', '+'):
+        if token.symbol != 'empty-sequence' and not token.occurrence and next_symbol in ('?', '*', '+'):
             token.occurrence = next_symbol
             self.advance()
         return token
